@@ -201,7 +201,7 @@ def translator_tie():
     if out == committed:
         return {"tie": "regenerated-identical", "generated_definitions": ["cached_parse_nodeid", "parse_nodeid", "nodeid_str", "extend_namespace_map", "get_namespace_list", "nodeid_type_value_to_int", "nodeid_xml_encode", "nodeid_json_encode", "qname_xml_encode", "qname_json_encode",
                                                                           "int_xml_encode_{sbyte,byte,int16,uint16,int32,uint32,int64,uint64}", "bool_xml_encode",
-                                                                          "int_json_encode_{sbyte,byte,int16,uint16,int32,uint32}", "str_xml_encode", "str_json_encode", "loctext_xml_encode", "loctext_json_encode"]}
+                                                                          "int_json_encode_{sbyte,byte,int16,uint16,int32,uint32}", "str_xml_encode", "str_json_encode", "loctext_xml_encode", "loctext_json_encode", "euinfo_xml_encode"]}
     tie = open(os.path.join(LEAN, "OpcuaModel", "Gen", "NodeIdTie.lean"), encoding="utf-8").read()
     body = "\n".join(l for l in out.splitlines() if not l.startswith("import "))
     tie_body = "\n".join(l for l in tie.splitlines() if not l.startswith("import "))
